@@ -44,6 +44,7 @@ def check(repo, tier="quick"):
         "is_allowed_combination and allowed_values_for; must-store of every accepted value in assert_level_constraint; cell-kind dispatch and "
         "indexing of read_constraints_from_csv; shape of membership, union and range merging."
     )
+    res.rule("C17.f", "bug patterns with zero expected instances in this property's modules: swapped same-named arguments, lower-bound guard followed by a decrement of the guarded value, presence of a dictionary entry decided by truthiness")
     res.rule("C17.a", "AnyValue creates neither _values nor _ranges: every ValueSet method that reads them on self is overridden in AnyValue, and every read of them on another operand is reached only when that operand is not an AnyValue")
     res.rule("C17.b", "membership is `in _values` or inclusive containment in some range; union inserts the values and ranges of both operands; add_range merges every stored range that overlaps the (growing) new one and removes covered values")
     res.rule("C17.c", "is_allowed_combination == (filter_constraint_table non-empty); allowed_values_for unions column.get(key, empty) over filter_constraint_table(table, values); the filter keeps a column iff every given key is present with the value in its set (or the column is empty)")
@@ -60,6 +61,10 @@ def check(repo, tier="quick"):
     rule_c(repo, res, m, where)
     rule_d(repo, res)
     rule_e(repo, res, m, where)
+    from .. import lints as _lints
+
+    _lints.rule(repo, res, "C17.f", ['constraint_table', 'decoder.assertions'])
+    res.floor("C17.f", 3)
     res.floor("C17.a", 8)
     res.floor("C17.b", 6)
     res.floor("C17.c", 4)
